@@ -1023,6 +1023,41 @@ fn gen_class_string_identifiers() -> Vec<Item> {
     v
 }
 
+/// Nested `VectorType` class strings (fixed-width and variable-width leaves, dimensions at the
+/// 16-bit boundary) in a RESULT Rows that also holds ONE non-null cell, so that the per-element
+/// width (a product of all inner dimensions) is computed when the cell is read.
+fn gen_vector_sizes() -> Vec<Item> {
+    const P: &str = "org.apache.cassandra.db.marshal.";
+    let mut v = Vec::new();
+    for leaf in ["UUIDType", "LongType", "Int32Type", "BooleanType", "DoubleType", "UTF8Type"] {
+        for depth in 1usize..=7 {
+            for dims in [0u32, 1, 2, 255, 256, 32768, 65535] {
+                let mut class = format!("{P}{leaf}");
+                for _ in 0..depth {
+                    class = format!("{P}VectorType({class} , {dims})");
+                }
+                for cell_len in [0usize, 3, 16, 64] {
+                    let mut w = crate::wire::prim::Writer::new();
+                    w.string("ks");
+                    w.string("t");
+                    w.string("c");
+                    w.short(0x0000);
+                    w.short(class.len() as u16);
+                    w.raw(class.as_bytes());
+                    w.int(1);
+                    w.int(cell_len as i32);
+                    w.raw(&vec![0x01; cell_len]);
+                    let frame = gens::plain_frame(Opcode::Result as u8, &gens::result_rows_body(0, 1, &w.buf));
+                    let mut it = item(rec(frame, 0, 0, 0, 0), "field-mutation", "vector-nesting-with-a-cell", "result-rows");
+                    it.fine = format!("{leaf}/depth={depth}/dims={dims}/cell={cell_len}");
+                    v.push(it);
+                }
+            }
+        }
+    }
+    v
+}
+
 fn gen_canaries() -> Vec<Vec<Item>> {
     let mk = |feat: u8, what: &'static str| {
         let mut it = item(rec(vec![0x84, 0, 0, 0, 2, 0, 0, 0, 0], feat, 0, 0, 0), "canary", what, "canary");
@@ -1409,6 +1444,7 @@ pub fn run(ctx: &Ctx) -> Outcome {
                 Job::Liars => {
                     let mut v = gen_liars();
                     v.extend(gen_class_string_identifiers());
+                    v.extend(gen_vector_sizes());
                     v
                 }
                 Job::Random(s, n) => gen_random(&cases, &mut ctx.rng(100 + s), *n),
